@@ -1,26 +1,37 @@
 #!/bin/bash
-# ./build.sh <flavour> <out>   build the harness against /repo's current working tree
+# ./build.sh <flavour> <out>   build the harness against the compose-go working tree
+# (/repo; VERIF_REPO=<dir> builds against a scratch copy instead -- used by tools/selftest.sh only)
 set -eu
 cd /verif
 . ./env.sh
 flavour=$1; out=$(realpath -m "$2")
-cp /repo/go.sum /verif/harness/go.sum
+REPO=${VERIF_REPO:-/repo}
+BUILD=/verif/.build
+MODFLAG=""
+if [ "$REPO" != /repo ]; then
+  BUILD=/verif/.build/alt-$(echo "$REPO" | md5sum | cut -c1-8)
+  mkdir -p $BUILD
+  sed "s|=> /repo|=> $REPO|" /verif/harness/go.mod > $BUILD/go.mod
+  cp $REPO/go.sum $BUILD/go.sum
+  MODFLAG="-modfile=$BUILD/go.mod"
+else
+  cp /repo/go.sum /verif/harness/go.sum
+fi
 cd /verif/harness
+[ -f /verif/.build/mapctl/overlay.json ] || python3 /verif/engine/mapctl/gen.py /verif/.build/mapctl
 case "$flavour" in
   plain)
-    [ -f /verif/.build/mapctl/overlay.json ] || python3 /verif/engine/mapctl/gen.py /verif/.build/mapctl
-    go build -overlay /verif/.build/mapctl/overlay.json -tags mapctl -o "$out" ./cmd/vcheck ;;
+    go build $MODFLAG -overlay /verif/.build/mapctl/overlay.json -tags mapctl -o "$out" ./cmd/vcheck ;;
   sched)
-    [ -f /verif/.build/mapctl/overlay.json ] || python3 /verif/engine/mapctl/gen.py /verif/.build/mapctl
     (cd /verif/engine/instrument && go build -o /verif/.build/instrument .)
-    syncver=$(awk '$1=="golang.org/x/sync"{print $2}' /repo/go.mod)
+    syncver=$(awk '$1=="golang.org/x/sync"{print $2}' $REPO/go.mod)
     eg=$(go env GOMODCACHE)/golang.org/x/sync@$syncver/errgroup
-    rm -rf /verif/.build/instr; mkdir -p /verif/.build/instr
-    pkgdirs=$(cd /repo && find . -name '*.go' -not -name '*_test.go' -not -path './cmd/*' -not -path './verifshim/*' -printf '%h\n' | sort -u | sed 's|^\.|/repo|')
-    /verif/.build/instrument -out /verif/.build/instr -overlay /verif/.build/instr/overlay.json \
+    rm -rf $BUILD/instr; mkdir -p $BUILD/instr
+    pkgdirs=$(cd $REPO && find . -name '*.go' -not -name '*_test.go' -not -path './cmd/*' -not -path './verifshim/*' -printf '%h\n' | sort -u | sed "s|^\.|$REPO|")
+    /verif/.build/instrument -out $BUILD/instr -overlay $BUILD/instr/overlay.json \
         -merge /verif/.build/mapctl/overlay.json \
-        -virtual /repo/verifshim/errgroup=$eg/errgroup.go,$eg/go120.go \
+        -virtual $REPO/verifshim/errgroup=$eg/errgroup.go,$eg/go120.go \
         -globals "$(echo $pkgdirs | tr ' ' ',')" $pkgdirs
-    go build -race -overlay /verif/.build/instr/overlay.json -tags "mapctl sched" -o "$out" ./cmd/vcheck ;;
+    go build $MODFLAG -race -overlay $BUILD/instr/overlay.json -tags "mapctl sched" -o "$out" ./cmd/vcheck ;;
   *) echo "unknown flavour $flavour"; exit 2 ;;
 esac
